@@ -657,6 +657,8 @@ def c13(pid, tier, seed, t0):
     decls = copyd(bld) + copyd(rnd)
     declfile = save_decls("C13", decls)
     legs = [trace_leg(pid, tier, seed, "bld+rand(valid, builder offered)", decls, declfile, "build", q(tier, 2, 40), builder=True, crate="rt-c13")]
+    # the recorded builder chain of every layout, decided for ALL argument tuples
+    sym(pid, decls, ops=("build",))
     finish(pid, tier, seed, t0, mc, legs,
            "builder layouts (complete covers without default; defaults with bits outside every field; read-only gaps; arrays incl. "
            "bool arrays and K=32; non-contiguous; signed; enum) plus seeded valid declarations: argument tuples all-zero, all-ones, "
